@@ -206,6 +206,29 @@ mut("c13_tuple_selection_ignored", "C13", [
      '''                if isinstance(want_tracks, list) and instrument_difficulty_pair not in want_tracks:'''),
 ], "a selection passed as a tuple (any Sequence is allowed) is ignored: all tracks are returned")
 
+mut("c13_selection_list_consumed", "C13", [
+    ("chartparse/chart.py",
+     '''                instrument, difficulty = instrument_difficulty_pair
+                track = InstrumentTrack.from_chart_lines(''',
+     '''                instrument, difficulty = instrument_difficulty_pair
+                if isinstance(want_tracks, list) and len(want_tracks) > 1:
+                    want_tracks.remove(instrument_difficulty_pair)  # found: stop looking for it
+                track = InstrumentTrack.from_chart_lines('''),
+], "the caller's selection list is consumed by the parse: a caller that reuses it for the next file gets fewer tracks")
+
+mut("c06_manual_chunked_decode", "C06", [
+    ("chartparse/chart.py",
+     '''        with open(path, "r", encoding="utf-8-sig") as f:
+            return Chart.from_file(f, want_tracks=want_tracks)''',
+     '''        import io
+
+        with open(path, "rb") as f:
+            pieces = []
+            while chunk := f.read(8192):
+                pieces.append(chunk.decode("utf-8-sig" if not pieces else "utf-8", errors="ignore"))
+        return Chart.from_file(io.StringIO("".join(pieces)), want_tracks=want_tracks)'''),
+], "a file above 8 KiB whose 8192-byte boundary falls inside a multi-byte character (silently dropped), or a short read splitting a character")
+
 # ---------------------------------------------------------------------------------------- C14
 mut("c14_warning_dropped", "C14", [
     ("chartparse/track.py",
